@@ -217,6 +217,15 @@ def drv_calls(ctx, k, rng):
                 m.implied_volatility(**kw)
             except (RuntimeError, ValueError):
                 pass  # inversion may legitimately fail to bracket; only mutation matters here
+    if derivative.is_listed:
+        # market data changed through another handle (the shared underlier itself): the listed price must follow it, not the call history
+        stock.simulate(n_paths=n, time_horizon=derivative.maturity)
+        mon = "history.independent"
+        ctx.seen(mon)
+        with torch.no_grad():
+            ctx.check(mon, bit_equal(derivative.spot, derivative.pricer(derivative)), "stale_listed_price",
+                      "listed derivative's spot is not the pricer applied to the current simulated series (stale after the underlier was re-simulated)",
+                      sig=("listed_spot_fresh", type(stock).__name__))
     hedge, hk = P.make_hedge(rng, derivative, pick(rng, ["ul", "ul+eu", "eu", "none"]))
     n_h = 1 if hedge is None else len(hedge)
     hedger = P.make_hedger(rng, derivative, n_h, dtype=dtype, criterion=pick(rng, [EntropicRiskMeasure(), ExpectedShortfall(0.3)]))
